@@ -158,3 +158,33 @@ Lemma rot_date_backwards_refuted_lem :
       (dq (run0 toy_strf toy_rtm_min back_cfg true true (86400 * S) [] back_ops)) =
   [([], 0, [4]); ([48], 0, [3]); ([49], 0, [1; 2])].
 Proof. split; [repeat constructor | vm_compute; reflexivity]. Qed.
+
+(* ---------- open finding C15-daily-dst: the grid property fails for the real libc on DST days ----------
+   Europe/Berlin, daily 12:00.  What glibc returned (harness/rot.cpp, corpus/C15/daily_dst_fall_back.case)
+   for mktime(localtime(t) with 12:00:00): t = 2023-10-28 12:00:00 CEST (1698487200) -> 1698487200.
+   The true 12:00 instants of that zone around it: 1698487200 (28th, CEST) and 1698577200 (29th, CET).
+   The model's (= the code's) next point after t is 1698487200 + 86400 = 1698573600 = 2023-10-29 11:00 CET. *)
+Definition berlin_rtm (t : N) : N :=
+  if t =? 1698487200 then 1698487200 else if t =? 1698573600 then 1698577200 else 0.
+Definition berlin_noon (g : N) : Prop := g = 1698487200 * NS \/ g = 1698577200 * NS.
+
+Lemma daily_dst_grid_refuted_lem :
+  init_tp berlin_rtm (1698487200 * NS) = 1698573600 * NS /\
+  ~ berlin_noon (1698573600 * NS) /\
+  ~ grid_property berlin_rtm (1698487200 * NS) berlin_noon.
+Proof.
+  split; [vm_compute; reflexivity|]. split.
+  - intros [H|H]; vm_compute in H; discriminate.
+  - intro G. destruct (G (1698487200 * NS) (N.le_refl _)) as [_ [[H|H] _]]; vm_compute in H; discriminate.
+Qed.
+
+(* ok_size read with positive statement sizes: within the limit or a single statement *)
+Lemma ok_size_single : forall c cs, (forall a, In a cs -> 0 < swr a) -> ok_size c cs ->
+  fsize cs <= c_limit c \/ length cs = 1%nat.
+Proof.
+  intros c cs P [H|[pre [st [E Z]]]]; auto. right. subst cs.
+  assert (pre = []).
+  { destruct pre as [|x pre]; auto. exfalso. rewrite fsize_cons in Z.
+    specialize (P x (or_introl eq_refl)). lia. }
+  subst. reflexivity.
+Qed.
